@@ -42,6 +42,11 @@ SITE_KEY = {  # model site -> key the exploration computes for a real panic ther
     "PUnspentsCurNil": "panic:masswallet/txmgr/utxostore.go:UtxoStore.ScriptAddressUnspents",
     "PSelectSlice": "panic:masswallet/tx.go:selectRelatedTx", "PTaskChanNil": "panic:masswallet/task.go:WalletTaskChan.IsBusy",
     "PImportRecNil": "panic:masswallet/ntfnshandler.go:NtfnsHandler.asyncImport",
+    # the second group (tx_service.go / block_service.go / txmgr history)
+    "PBindHistIndex": "panic:masswallet/txmgr/utxostore.go:UtxoStore.GetBindingHistoryDetail",
+    "PBindHistTargetNil": "panic:api/tx_service.go:APIServer.GetBindingHistory", "PBindHistPrevIndex": "panic:api/tx_service.go:APIServer.GetBindingHistory",
+    "PTargetIdx": "panic:api/tx_service.go:APIServer.CheckTargetBinding", "PTxTypeIndex": "panic:api/block_service.go:APIServer.getTxType",
+    "PVinIndex": "panic:api/tx_service.go:APIServer.createVinList", "PRewardTxOut": "panic:api/block_service.go:APIServer.GetBlockStakingReward",
 }
 
 
@@ -109,7 +114,7 @@ def inventory(c):
             drift_funcs.append("%s:%s" % (e["file"], e["func"]))
     gone = [k for k in pinned if k not in seen]
     # every disposition must name things that exist
-    proofs_src = open(os.path.join(V.COQ, "Api", "Proofs.v")).read()
+    proofs_src = "\n".join(open(os.path.join(V.COQ, "Api", f)).read() for f in sorted(os.listdir(os.path.join(V.COQ, "Api"))) if f.startswith("Proofs") and f.endswith(".v"))
     valid_src = open(os.path.join(V.COQ, "Api", "Validate.v")).read()
     lemmas = set(re.findall(r"^\s*(?:Lemma|Theorem)\s+([A-Za-z0-9_']+)", proofs_src, re.M))
     sites = set(re.findall(r"^\|\s*(P[A-Za-z0-9]+)", valid_src, re.M))
